@@ -48,15 +48,10 @@ def Rel.SqlLeafTree : Rel → Prop
        | _ => True)
   | _ => False
 
-/-- A Transfer node whose destination differs from its source's engine (the factory refuses any other). -/
-def Rel.isTransferToOther : Rel → Prop
-  | .transfer _ d t => d ≠ t.engine
-  | _ => False
-
 /-- A multi-engine tree whose operations run in iteration engines: leaves, unary operations, chains,
-materializations of single-engine subtrees AND materializations directly after a transfer, transfers between
-iteration engines (statically trivial ones included) and transfers OUT OF A SQL ENGINE whose source is a raw SQL
-tree over leaves. -/
+materializations (of single-engine subtrees, and of any subtree of this class: directly after a transfer, over
+re-applied operations, over chains that get pruned), transfers between DIFFERENT iteration engines (statically trivial
+ones included) and transfers OUT OF A SQL ENGINE whose source is a raw SQL tree over leaves. -/
 def Rel.MultiIter : Rel → Prop
   | .leaf _ e _ _ _ _ p _ => e.kind = .iter ∧ p = true
   | .unary op t _ => Rel.MultiIter t ∧ op.isIdentity = false ∧ op.arityOk = true
@@ -65,8 +60,8 @@ def Rel.MultiIter : Rel → Prop
        | .chain => True
        | _ => False)
   | .mat _ _ t => t.engine.kind = .iter ∧
-      ((Rel.PlainIter t.engine t ∧ t.IterOK) ∨ (Rel.MultiIter t ∧ t.isTransferToOther))
-  | .transfer _ d t => d.kind = .iter ∧
+      ((Rel.PlainIter t.engine t ∧ t.IterOK) ∨ Rel.MultiIter t)
+  | .transfer _ d t => d.kind = .iter ∧ d ≠ t.engine ∧
       ((t.engine.kind = .iter ∧ Rel.MultiIter t) ∨ (t.engine.kind = .sql ∧ t.RawSql ∧ t.SqlLeafTree))
   | .select .. => False
 
